@@ -193,6 +193,17 @@ def gen_op(rng, sh, stamped, projected):
     elif name == "ids":
         k = int(rng.integers(1, sh.n + 1))
         op["ids"] = sorted(rng.choice(sh.n, size=k, replace=False).tolist())
+        if not stamped and rng.random() < .3:
+            # any index list is a legal selection: re-ordered (e.g. an argsort) or with repeats,
+            # also of full length with the end points in place
+            ids = list(range(sh.n)) if rng.random() < .5 else list(op["ids"])
+            if len(ids) > 3 and rng.random() < .5:
+                mid = ids[1:-1]
+                rng.shuffle(mid)
+                ids = [ids[0]] + [int(v) for v in mid] + [ids[-1]]
+            else:
+                ids = [int(v) for v in rng.choice(ids, size=len(ids), replace=True)]
+            op["ids"] = ids
         op["as_array"] = bool(rng.random() < .5)
     elif name in ("down", "down_path"):
         op["N"] = int(rng.integers(1, sh.n + 2))
